@@ -10,7 +10,7 @@
    The per-node request is abstracted to its outcome (what the stubbed RpcNode.request does).
    State: the integer _next_i.  One step sends the request to node _next_i, hands the
    outcome of that node to the caller unchanged and advances the index whatever happened. *)
-From Coq Require Import List Arith Bool.
+From Coq Require Import List Arith Bool ZArith.
 Import ListNotations.
 
 (* outcome of the selected node's RpcNode.request *)
@@ -88,3 +88,62 @@ Definition obs_eqb (a b : list event * nat) : bool :=
 
 (* case input: (number of nodes, outcome script) *)
 Definition run_case (c : nat * list outcome) : list event * nat := run (fst c) (snd c).
+
+(* ---- the public entry points --------------------------------------------------------------
+   RpcNode.get/post/put/delete are `self.request('GET' | 'POST' | 'PUT' | 'DELETE', path, ...)`
+   and RpcMultiNode overrides only `request`: every call of a multi-node client, whatever the
+   entry point, is one step of the rotation and reaches the selected node with that HTTP method. *)
+Inductive method := GET | POST | PUT | DELETE.
+Inductive call :=
+| CRequest (m : method)   (* client.request(m, path, ...) *)
+| CGet | CPost | CPut | CDelete.
+
+Definition call_method (c : call) : method :=
+  match c with CRequest m => m | CGet => GET | CPost => POST | CPut => PUT | CDelete => DELETE end.
+
+Inductive wire_event :=
+| Wire (node : nat) (m : method) (o : outcome)   (* what the selected node receives / answers *)
+| WAssert.
+
+Definition on_wire (c : call) (e : event) : wire_event :=
+  match e with Sent i o => Wire i (call_method c) o | AssertFailed => WAssert end.
+
+Fixpoint run_calls_from (n : nat) (next_i : nat) (cs : list (call * outcome)) : list wire_event * nat :=
+  match cs with
+  | [] => ([], next_i)
+  | (c, o) :: r =>
+      let '(s', e) := step n next_i o in
+      let '(es, fin) := run_calls_from n s' r in
+      (on_wire c e :: es, fin)
+  end.
+
+Definition run_calls (n : nat) (cs : list (call * outcome)) : list wire_event * nat := run_calls_from n 0 cs.
+
+Definition wire_target (e : wire_event) : option nat :=
+  match e with Wire i _ _ => Some i | WAssert => None end.
+Definition wire_method (e : wire_event) : option method :=
+  match e with Wire _ m _ => Some m | WAssert => None end.
+
+(* a session with the time that passes before each call (seconds): the implementation never looks at a
+   clock, so the pauses are dropped before anything is computed *)
+Definition run_timed (n : nat) (tcs : list (Z * (call * outcome))) : list wire_event * nat :=
+  run_calls n (map snd tcs).
+
+Definition method_eqb (a b : method) : bool :=
+  match a, b with GET, GET | POST, POST | PUT, PUT | DELETE, DELETE => true | _, _ => false end.
+Definition wire_event_eqb (a b : wire_event) : bool :=
+  match a, b with
+  | Wire i m o, Wire j m' o' => Nat.eqb i j && method_eqb m m' && outcome_eqb o o'
+  | WAssert, WAssert => true
+  | _, _ => false
+  end.
+Fixpoint wire_events_eqb (a b : list wire_event) : bool :=
+  match a, b with
+  | [], [] => true
+  | x :: a', y :: b' => wire_event_eqb x y && wire_events_eqb a' b'
+  | _, _ => false
+  end.
+Definition wire_obs_eqb (a b : list wire_event * nat) : bool :=
+  wire_events_eqb (fst a) (fst b) && Nat.eqb (snd a) (snd b).
+Definition run_timed_case (c : nat * list (Z * (call * outcome))) : list wire_event * nat :=
+  run_timed (fst c) (snd c).
